@@ -181,3 +181,17 @@ def register_calc_file(reg):
 		ensures=['sorted_unique(result)',
 		         f'forall(j, 0 <= j, j < len(result), exists(i, 0 <= i, i < len({R}), sig(kspec, {R}[i].seq, result[j])))',
 		         f'forall(x, forall(i, 0 <= i, i < len({R}), implies(sig(kspec, {R}[i].seq, x), exists(j, 0 <= j, j < len(result), result[j] == x))))'])
+
+
+# ---- ClosingIterator: the context manager must never swallow an exception raised while reading (C13: "the whole call fails") ----
+class ClosingT(TypeSpec):
+	def make(self, name, st, eng):
+		f = ExtObj('file', path=TStr.fresh(name + '_path'), mode='rt', enter=None, closed=[False], kw={}, chain='file')
+		return Rec(IO + 'ClosingIterator', fobj=Const(f), iterator=Const(ExtObj('records', stream=f, format='fasta', chain='records>file'))).make(name, st, eng)
+
+
+def register_closing(reg):
+	reg.contract(IO + 'ClosingIterator.close', types={'self': ClosingT()}, ensures=['isnone(result)'])
+	reg.contract(IO + 'ClosingIterator.__exit__', types={'self': ClosingT(), 'args': ()},
+		ensures=['isnone(result) or result == False'], note='a true return value would suppress the exception raised inside the with block')
+	reg.contract(IO + 'ClosingIterator.__enter__', types={'self': ClosingT()}, ensures=['result is self'])
